@@ -652,8 +652,17 @@ int32_t pstm_read_radix(psPool_t *pool, pstm_int *a,
          */
         if (y < radix)
         {
-            pstm_mul_d(a, (pstm_digit) radix, a);
-            pstm_add_d(pool, a, (pstm_digit) y, a);
+            int32_t rc;
+
+            /* both can fail to allocate: never return a truncated value */
+            if ((rc = pstm_mul_d(a, (pstm_digit) radix, a)) != PSTM_OKAY)
+            {
+                return rc;
+            }
+            if ((rc = pstm_add_d(pool, a, (pstm_digit) y, a)) != PSTM_OKAY)
+            {
+                return rc;
+            }
         }
         else
         {
